@@ -5,9 +5,10 @@ ROOT=${1:-/repo}
 OUT=$(mktemp /tmp/bvmon-junit-XXXXXX.xml)
 unset BUMPVER_VERIF
 # a scratch worktree is tested against its own sources (the editable install points at /repo/src)
-[ "$ROOT" != /repo ] && export PYTHONPATH="$ROOT/src"
+EXTRA=""
+[ "$ROOT" != /repo ] && export PYTHONPATH="$ROOT/src" && EXTRA="--ignore=seed_demo"
 cd "$ROOT" && /venv/bin/python -m pytest -ra -q -p no:cacheprovider --timeout=900 \
-    --continue-on-collection-errors --junitxml="$OUT" >/dev/null 2>&1
+    --continue-on-collection-errors $EXTRA --junitxml="$OUT" >/dev/null 2>&1
 /venv/bin/python - "$OUT" <<'PY'
 import json, sys, xml.etree.ElementTree as ET
 base = json.load(open('/root/.vp/BASELINE.json'))
